@@ -416,7 +416,25 @@ pub fn run(tier: Tier) -> i32 {
     }
     // ---- option pairs: every subset of size <= 2 of an option menu x 2 check modes x {mixed-code stream, clean},
     //      judged against the reference run (same mode / filter / custom checks, no display option) by generic rules
-    let pair_runs = option_pairs(&mut rep, &mixed_stream, &clean_bytes, clean.packets.len());
+    // a stave-mode stream with ALPIDE frames in which one lane carries another bunch counter than the others (E74),
+    // one TDT reserved bit and one RDH sanity fault
+    let stave_faulty: Vec<u8> = {
+        let wsf = ws.iter().find(|x| x.name == "ib-fmt2-frames").expect("stave witness");
+        let mut s = grammar::interleave(&wsf.links, &wsf.order);
+        let mut done = 0;
+        for (_, p) in s.packets.iter_mut() {
+            if let Some(wi) = p.words.iter().position(|w| w.kind == grammar::WKind::Data) {
+                if done == 0 || done == 3 {
+                    let off = p.word_rel_offset(wi) as usize - 64;
+                    p.packet.payload[off + 1] ^= 0x01; // bunch counter byte of the first chip of that lane
+                }
+                done += 1;
+            }
+        }
+        s.packets[2].1.packet.rdh.rdh3_reserved = 0x0101;
+        s.packets.iter().flat_map(|(_, p)| p.packet.bytes()).collect()
+    };
+    let pair_runs = option_pairs(&mut rep, &mixed_stream, &clean_bytes, &stave_faulty, clean.packets.len());
     rep.cov("option_pair_runs", json!(pair_runs));
     // ---- display filter in-process: all (filter code, message code) pairs
     let codes: Vec<&str> = vec!["10", "11", "12", "30", "40", "41", "42", "44", "440", "441", "442", "443", "444", "445", "45", "50", "59", "60", "70", "71", "72", "73", "74", "75", "81", "100", "101", "110", "111", "701", "990", "991", "992", "9001", "9002", "9003", "9004", "9005", "1", "4", "9", "99", "900"];
@@ -482,7 +500,7 @@ pub fn run(tier: Tier) -> i32 {
     rep.cov("code_pairs", json!(pairs));
     rep.cov("distinct_nontrivial", json!(cases.iter().filter(|c| c.exit != Exit::Code(0)).count()));
     rep.cov("exhaustive", json!(true));
-    rep.cov("rule", json!("contract table over: clean x 5 -E values x 3 modes; 1/2/21 errors x 5 -E values x 7 display options; a stream with mixed codes (E10, E11, E40, E41, E44, E444, E445, ...) x code lists incl. prefixes; a fatal framing error at every packet index x 3 -E values; {fatal framing error, truncated last payload, RDH sanity fault, clean} x 7 modes incl. the three views and data to stdout x 2 -E values with the oracle: exit = N iff an error was reported (ERROR line on stderr or errors / fatal error in the statistics file); 5 unreadable / unrecognisable inputs x 3 modes; 10 invalid option combinations (must not write st.json / out.raw); every subset of size <= 2 of an 11-atom option menu (-m, two -w lists, -e 2, -e 1000, -E 7, -S, -v 0, -f, -f -o, -c) x 2 check modes x {mixed-code stream, clean stream} against its reference run (shown messages, exit status, statistics total); all ordered pairs of 43 codes through the display filter; every message sequence of length <= 4 over 4 codes x 31 code-filter subsets x 5 display caps through the real ErrPrinter (shown = the first N listed messages); thorough: every -E value 1..=255 x {clean, one error, one muted error, fatal framing error} and -E 0 / 256 / -1 / 1000 rejected. non-trivial = the contract demands a non-zero exit"));
+    rep.cov("rule", json!("contract table over: clean x 5 -E values x 3 modes; 1/2/21 errors x 5 -E values x 7 display options; a stream with mixed codes (E10, E11, E40, E41, E44, E444, E445, ...) x code lists incl. prefixes; a fatal framing error at every packet index x 3 -E values; {fatal framing error, truncated last payload, RDH sanity fault, clean} x 7 modes incl. the three views and data to stdout x 2 -E values with the oracle: exit = N iff an error was reported (ERROR line on stderr or errors / fatal error in the statistics file); 5 unreadable / unrecognisable inputs x 3 modes; 10 invalid option combinations (must not write st.json / out.raw); every subset of size <= 2 of an 11-atom option menu (-m, two -w lists, -e 2, -e 1000, -E 7, -S, -v 0, -f, -f -o, -c) x 2 check modes x {mixed-code stream, clean stream} and x check all its-stave on a stream with an ALPIDE lane bunch-counter mismatch, against its reference run (shown messages, exit status, statistics total); all ordered pairs of 43 codes through the display filter; every message sequence of length <= 4 over 4 codes x 31 code-filter subsets x 5 display caps through the real ErrPrinter (shown = the first N listed messages); thorough: every -E value 1..=255 x {clean, one error, one muted error, fatal framing error} and -E 0 / 256 / -1 / 1000 rejected. non-trivial = the contract demands a non-zero exit"));
     rep.sample(json!({"case": cases[cases.len() / 2].label, "args": cases[cases.len() / 2].args}));
     rep.assume("with an error cap the run stops early: only 'at most N shown' and the exit status are judged, not the totals");
     rep.finish()
@@ -502,7 +520,7 @@ fn code_of(line: &str) -> Option<String> {
 
 /// Option atoms; `semantic` atoms change what is analysed (they are part of the reference run), the others only
 /// what is displayed / returned.
-fn option_pairs(rep: &mut Reporter, mixed: &[u8], clean: &[u8], n_packets: usize) -> u64 {
+fn option_pairs(rep: &mut Reporter, mixed: &[u8], clean: &[u8], stave_faulty: &[u8], n_packets: usize) -> u64 {
     #[derive(Clone)]
     struct Atom {
         name: &'static str,
@@ -540,7 +558,7 @@ fn option_pairs(rep: &mut Reporter, mixed: &[u8], clean: &[u8], n_packets: usize
         mode: Vec<String>,
         set: Vec<usize>,
     }
-    let inputs: [&[u8]; 2] = [mixed, clean];
+    let inputs: [&[u8]; 3] = [mixed, clean, stave_faulty];
     let modes = [s(&["check", "sanity"]), s(&["check", "all", "its"])];
     let mut cases: Vec<PCase> = Vec::new();
     for input in 0..2 {
@@ -549,6 +567,9 @@ fn option_pairs(rep: &mut Reporter, mixed: &[u8], clean: &[u8], n_packets: usize
                 cases.push(PCase { input, mode: mode.clone(), set: set.clone() });
             }
         }
+    }
+    for set in &subsets {
+        cases.push(PCase { input: 2, mode: s(&["check", "all", "its-stave"]), set: set.clone() });
     }
     let run = |input: &[u8], mode: &[String], opts: &[String]| -> (fp_harness::cli::RunResult, Option<Value>) {
         let scratch = Scratch::new("c16p");
@@ -577,7 +598,7 @@ fn option_pairs(rep: &mut Reporter, mixed: &[u8], clean: &[u8], n_packets: usize
     for (c, (rf, rr, st)) in cases.iter().zip(res.iter()) {
         let names: Vec<&str> = c.set.iter().map(|i| atoms[*i].name).collect();
         let has = |f: &str| c.set.iter().any(|i| atoms[*i].name.starts_with(f));
-        let label = format!("{} | options {:?} | {}", c.mode.join(" "), names, if c.input == 0 { "mixed-code stream" } else { "clean stream" });
+        let label = format!("{} | options {:?} | {}", c.mode.join(" "), names, ["mixed-code stream", "clean stream", "stave stream with a lane bunch-counter mismatch"][c.input]);
         let mut bad: Option<(String, String)> = None;
         let reference = first_lines(&split_cli_errors(&rf.stderr_str()).into_iter().filter(|m| m.contains("[E")).collect::<Vec<_>>());
         let shown = first_lines(&split_cli_errors(&rr.stderr_str()).into_iter().filter(|m| m.contains("[E")).collect::<Vec<_>>());
